@@ -172,6 +172,7 @@ class ChoiceStub:
         self.calls = []
         self.tape = []
         self.contract_ok = True
+        self.args_modified = []
 
     def __call__(self, a, size=None, replace=True, p=None):
         n = len(a)
@@ -259,11 +260,29 @@ def finite_result(r):
     return r
 
 
+def snapshot(arrs):
+    """bit-exact picture of a list of float vectors"""
+    return [[float(x).hex() for x in np.asarray(a, dtype=float).ravel()] for a in arrs]
+
+
+def modified_args(before, after, what):
+    out = []
+    for j, (a, b) in enumerate(zip(before, after)):
+        for i, (x, y) in enumerate(zip(a, b)):
+            if x != y:
+                out.append(f"{what}[{j}][{i}]: {float.fromhex(x)!r} -> {float.fromhex(y)!r}")
+        if len(a) != len(b):
+            out.append(f"{what}[{j}]: length {len(a)} -> {len(b)}")
+    return out[:6]
+
+
 def run_weights(probs, N, policy):
     stub = ChoiceStub(policy)
     arrs = arrays(probs)
+    before = snapshot(arrs)
     with patched_choice(stub):
         r = finite_result(call_canon(W._generate_qpd_weights, arrs, num_float(N)))
+    stub.args_modified = modified_args(before, snapshot(arrs), "independent_probabilities")
     return r, stub
 
 
@@ -469,8 +488,9 @@ def weights_case(w, group, probs, N, policy, exact=True, extra=None, perms=None)
         impl = [r[0], r[1]]
     tl = tols_for(N, stub.calls, exact)
     calls = [(n, k, [cq(x) for x in p]) for n, k, p in stub.calls]
+    w.contract("arguments_unchanged", not stub.args_modified)
     js = dict(kind="weights", probs=[[jq(x) for x in v] for v in probs], N=jnum(N), tape=list(stub.tape),
-              perms=perms, impl=impl, exact=exact)
+              perms=perms, impl=impl, exact=exact, args_modified=list(stub.args_modified))
     if extra:
         js.update(extra)
     w.add(group, "chk_weights",
@@ -742,11 +762,15 @@ def num_arg(N, form):
 
 def run_public(bases, N, policy, form="float"):
     stub = ChoiceStub(policy)
+    before_p = snapshot([b.probabilities for b in bases])
+    before_c = snapshot([b.coeffs for b in bases])
     with patched_choice(stub):
         if form == "default":
             r = call_canon(generate_qpd_weights, bases)
         else:
             r = call_canon(generate_qpd_weights, bases, num_arg(N, form))
+    stub.args_modified = (modified_args(before_p, snapshot([b.probabilities for b in bases]), "basis.probabilities")
+                          + modified_args(before_c, snapshot([b.coeffs for b in bases]), "basis.coeffs"))
     return finite_result(r), stub
 
 
@@ -787,7 +811,8 @@ def gen_public(rng, tier, w, n):
         w.add("public", "chk_public_coeffs",
               (coq_probs(coeffs), perms, coq_num(N), list(stub.tape), tuple(cq(t) for t in tl), exp),
               dict(kind="weights", public=True, probs=[[jq(x) for x in v] for v in probs], N=jnum(N), tape=list(stub.tape),
-                   perms=perms, impl=impl, exact=True, scales=scales, signs=signs, form=form),
+                   perms=perms, impl=impl, exact=True, scales=scales, signs=signs, form=form,
+                   args_modified=list(stub.args_modified)),
               nontrivial=(len(items) > 1))
         done += 1
         w.count("public.num_samples_form", form)
@@ -913,7 +938,7 @@ def gen_gates_public(rng, tier, w, n):
         w.add("gates-public", "chk_public_set",
               (coq_probs(probs), perms, coq_num(N), list(stub.tape), tuple(cq(t) for t in tl), exp),
               dict(kind="weights", public=True, from_instruction=combo, probs=[[jq(x) for x in v] for v in probs], N=jnum(N),
-                   tape=list(stub.tape), perms=perms, impl=impl, exact=False, form=form),
+                   tape=list(stub.tape), perms=perms, impl=impl, exact=False, form=form, args_modified=list(stub.args_modified)),
               nontrivial=(len(items) > 1))
         done += 1
         w.count("gates-public.combo", "+".join(combo))
@@ -946,6 +971,10 @@ def judge_weights(case):
         return dict(violates=impl[0] != "refused", detail=f"N={N}: a budget below 1 must be refused; got {impl[0]}")
     if not valid_bases:
         return dict(violates=False, detail="bases are not probability vectors; property silent")
+    if case.get("args_modified"):
+        # the bases / probability vectors are INPUTS: the property's weights are a function of them, and a caller that
+        # asks twice must get the same law (also C16's business: no argument is modified)
+        return dict(violates=True, detail="the call modified its arguments: " + "; ".join(case["args_modified"]))
     if impl[0] != "ok":
         return dict(violates=True, detail=f"valid request (N={N}) ended with {impl[0]}: {impl[1]}")
     items = [(tuple(k), unq(wt), t) for k, wt, t in impl[1]]
@@ -1175,6 +1204,7 @@ def rerun(case):
         else:
             r, stub = run_weights(probs, N, pol)
         case["impl"] = ["ok", jdict(canon_dict(r[1]))] if r[0] == "ok" else [r[0], r[1]]
+        case["args_modified"] = list(getattr(stub, "args_modified", []) or []) if stub is not None else []
     elif k == "law":
         N = unjnum(case["N"])
         res = enumerate_law(probs, N, limit=100000)
